@@ -40,6 +40,7 @@ type Pointer struct {
 	Nil  bool // literal nil pointer
 	Ghost string // ghost field name ("$name") of the object at Base
 	GhostT types.Type
+	AbsLoc *Pointer // location holding the byte-array id (for element stores)
 	Abs  bool // element of an abstract byte string (Base=id, Idx=index)
 }
 
